@@ -123,7 +123,7 @@ namespace RecInt
     }
     template <size_t K, typename T>
     inline __RECINT_IS_SIGNED(T, ruint<K>&) operator-=(ruint<K>& a, const T& b) {
-        if (b < 0) add(a, -b);
+        if (b < 0) add(a, __recint_mag(b));
         else sub(a, b);
         return a;
     }
@@ -150,14 +150,14 @@ namespace RecInt
     template <size_t K, typename T>
     inline __RECINT_IS_SIGNED(T, ruint<K>) operator-(const ruint<K>& b, const T& c) {
         ruint<K> a;
-        if (c < 0) add(a, b, -c);
+        if (c < 0) add(a, b, __recint_mag(c));
         else sub(a, b, c);
         return a;
     }
     template <size_t K, typename T>
     inline __RECINT_IS_SIGNED(T, ruint<K>) operator-(const T& c, const ruint<K>& b) {
         ruint<K> a;
-        if (c < 0) add(a, b, -c);
+        if (c < 0) add(a, b, __recint_mag(c));
         else sub(a, b, c);
         return -a;
     }
